@@ -138,6 +138,20 @@ func grammarSentence(r *rng.R) string {
 			}
 			return s
 		}
+		if r.Chance(1, 25) {
+			// a written exponent beyond the limit that the position of the point
+			// brings back into range (0.001E+100002 = 1E+99999), or just fails to
+			k := 1 + r.Intn(12)
+			frac := gen.Digits(r, int64(k))
+			e := int64(100000+k) - int64(r.Intn(3)) - int64(len(strings.TrimLeft(frac, "0"))) + 1
+			if r.Bool() {
+				fmt.Fprintf(&sb, "0.%sE+%d", frac, e)
+			} else {
+				ip := gen.Digits(r, int64(k))
+				fmt.Fprintf(&sb, "%sE-%d", ip, int64(100000+k)-int64(r.Intn(3)))
+			}
+			return sb.String()
+		}
 		switch r.Intn(4) {
 		case 0:
 			sb.WriteString(digits())
@@ -156,15 +170,24 @@ func grammarSentence(r *rng.R) string {
 			case 1:
 				sb.WriteByte('+')
 			}
-			switch r.Pick(70, 15, 10, 5) {
+			switch r.Pick(64, 15, 10, 5, 6) {
 			case 0:
 				fmt.Fprintf(&sb, "%d", r.Intn(400))
 			case 1:
 				fmt.Fprintf(&sb, "%d", r.Range(99990, 100010))
 			case 2:
 				fmt.Fprintf(&sb, "%05d", r.Intn(99999))
-			default:
+			case 3:
 				sb.WriteString(gen.Digits(r, int64(6+r.Intn(20))))
+			default:
+				// numerals that wrap to a small value in 32- or 64-bit arithmetic:
+				// k*2^31, k*2^32, k*2^63, k*2^64 +/- up to 100010
+				v := new(big.Int).Lsh(big.NewInt(r.Range(1, 5)), []uint{31, 32, 63, 64}[r.Intn(4)])
+				v.Add(v, big.NewInt(r.Range(-100010, 100010)))
+				if r.Chance(1, 3) {
+					sb.WriteString("000")
+				}
+				sb.WriteString(v.String())
 			}
 		}
 	}
